@@ -101,6 +101,29 @@ def result_unmodified(repo: Repo, rep):
             rep.violation("R-FORMAT-RESULT", w, c, f"rewrite writes `{short(a, 40)}`, not new_code() itself", construct="write-arg")
 
 
+def _mode_ctor(x) -> bool:
+    return isinstance(x, ast.Call) and norm(x.func).split(".")[-1] in ("FileMode", "Mode")
+
+
+def mode_builder(repo: Repo):
+    """the function of _format.py that builds black's Mode (today file_mode_for_path; found by what it does) and the name of its path parameter"""
+    m = repo.module("_format.py")
+    cands = [f for f in m.funcs.values() if any(_mode_ctor(x) for x in body_nodes(f.node))]
+    if len(cands) > 1:
+        # the builder is the one that looks the project's configuration up; a bare `Mode()` elsewhere is a use, judged by R-ONE-MODE
+        cands = [f for f in cands if any(isinstance(x, ast.Call) and norm(x.func).split(".")[-1] in ("find_pyproject_toml", "parse_pyproject_toml") for x in body_nodes(f.node))]
+    if len(cands) != 1:
+        from ..model import AnalysisError
+
+        raise AnalysisError(f"anchor vanished: expected exactly one function of _format.py that constructs black's Mode, found {[f.qualname for f in cands]}")
+    f = cands[0]
+    if f.name == "format_code" or len(f.params) > 1:
+        path_p = f.params[1] if len(f.params) > 1 else None
+    else:
+        path_p = f.params[0] if f.params else None
+    return f, path_p
+
+
 def one_mode(repo: Repo, rep):
     rep.rule(
         "R-ONE-MODE",
@@ -115,8 +138,12 @@ def one_mode(repo: Repo, rep):
     for n, c in sites:
         mode = next((k.value for k in c.keywords if k.arg == "mode"), None)
         src = resolve_alias(cfg, n, mode) if isinstance(mode, ast.Name) else mode
-        if isinstance(src, ast.Call) and norm(src.func).endswith("file_mode_for_path") and src.args and norm(src.args[0]) == path_p:
-            rep.ok("R-ONE-MODE", fc, c, "mode = file_mode_for_path(filename)")
+        mb, mb_path = mode_builder(repo)
+        cg0 = callgraph(repo)
+        if isinstance(src, ast.Call) and mb.key != fc.key and any(t.key == mb.key for t in cg0.call_targets(fc, src)[0]) and src.args and norm(src.args[0]) == path_p:
+            rep.ok("R-ONE-MODE", fc, c, f"mode = {mb.name}(filename)")
+        elif mb.key == fc.key and _mode_ctor(src) and mb_path == path_p:
+            rep.ok("R-ONE-MODE", fc, c, "the mode is built in format_code itself from the path parameter (R-MODE-TABLE audits how)")
         else:
             rep.violation("R-ONE-MODE", fc, c, f"format_str is called with mode `{short(src if src is not None else c, 40)}`, not the mode of the edited file's path: the project's black options are ignored", construct="mode")
     cg = callgraph(repo)
@@ -143,7 +170,7 @@ def mode_table(repo: Repo, rep):
         "each of line_length, skip_magic_trailing_comma, skip_string_normalization, preview is read under `key in config` and assigned to the matching "
         "Mode field with the right polarity (skip_* negated, the others direct) from config[key] itself",
     )
-    f = repo.func("_format.py::file_mode_for_path")
+    f, pathp = mode_builder(repo)
     cfg = cfg_of(f)
     m = f.module
     # black's own lookup functions
@@ -153,7 +180,6 @@ def mode_table(repo: Repo, rep):
         if imp and imp[0] == "black" and calls:
             if fn == "find_pyproject_toml":
                 c = calls[0]
-                pathp = f.params[0]
                 if not any(isinstance(x, ast.Name) and x.id == pathp for a in c.args for x in ast.walk(a)):
                     rep.violation("R-MODE-TABLE", f, c, "find_pyproject_toml is not asked for the path of the edited file", construct="find-arg")
                     continue
@@ -176,7 +202,8 @@ def mode_table(repo: Repo, rep):
         else:
             rep.violation("R-MODE-TABLE", f, f.node, f"file_mode_for_path does not use black's own `{fn}`: the configuration inline-snapshot formats with can differ from the one `black` itself uses for that file (e.g. a nearer pyproject.toml without [tool.black])", construct=f"lookup:{fn}")
     # the Mode starts from black's defaults: nothing is put into the constructor that the project's black configuration does not say
-    for c in [x for x in body_nodes(f.node) if isinstance(x, ast.Call) and norm(x.func).split(".")[-1] in ("FileMode", "Mode")]:
+    mode_vars = {t.id for n in cfg.stmts(ast.Assign) if _mode_ctor(n.ast.value) for t in n.ast.targets if isinstance(t, ast.Name)}
+    for c in [x for x in body_nodes(f.node) if _mode_ctor(x)]:
         own = [a for a in list(c.args) + [k.value for k in c.keywords] if "config" not in norm(a)]
         if own:
             rep.violation("R-MODE-TABLE", f, c, f"`{short(c, 60)}` fixes an option ({short(own[0], 40)}) that does not come from the project's black configuration: files that `black` itself accepts are judged 'not formatted' (the final pass is skipped) or are re-wrapped differently", construct="mode-ctor-args")
@@ -185,7 +212,7 @@ def mode_table(repo: Repo, rep):
     found = {}
     for n in cfg.stmts(ast.Assign):
         for t in n.ast.targets:
-            if isinstance(t, ast.Attribute) and isinstance(t.value, ast.Name) and t.value.id == "mode":
+            if isinstance(t, ast.Attribute) and isinstance(t.value, ast.Name) and t.value.id in mode_vars:
                 found.setdefault(t.attr, []).append(n)
     for key, (field, neg) in MODE_KEYS.items():
         ns = found.get(field, [])
